@@ -17,7 +17,7 @@ LEVEL = "exploration"
 TECHNIQUE = "bounded-exhaustive enumeration of all DAG pipelines x outputs x argument cuts, lazy vs reference evaluator, task graph vs reference dependency edges"
 RULE = ("the pipelines, outputs and argument combinations of C02 (G-DAG N<=2 decorated + N=3 quick; thorough adds the N=4 single-output family) with lazy=True, "
         "with and without an active construct_dag(), evaluate() called three times, and every ordered pair of requested outputs "
-        "evaluated in both orders on one lazy pipeline. non-trivial = distinct (pipeline, output, cut, mode) with >= 2 functions on the dependency path")
+        "evaluated in both orders on one lazy pipeline - as two plain requests, inside ONE construct_dag() block, and with cache=True on every function. non-trivial = distinct (pipeline, output, cut, mode) with >= 2 functions on the dependency path")
 ASSUMPTIONS = c02.ASSUMPTIONS + ["task-graph nodes whose func is not a PipeFunc are output pickers and are contracted"]
 BUDGET = {"quick": 70.0, "thorough": 900.0}
 
@@ -115,30 +115,50 @@ def check_lazy(spec, out, kw, mode):  # noqa: C901, PLR0912
     return res
 
 
-def check_pair(spec, out_a, kw_a, out_b, kw_b):
-    """two deferred results of one lazy pipeline evaluated in both orders"""
+PAIR_MODES = ("separate", "one-dag", "cache=True")
+
+
+def check_pair(spec, out_a, kw_a, out_b, kw_b, pmode="separate"):
+    """two deferred results of one lazy pipeline evaluated in both orders.
+
+    pmode "separate": two plain requests; "one-dag": both requests inside ONE construct_dag() block (its SimpleCache makes the
+    second request hit the nodes of the first); "cache=True": every function cached by the pipeline's own cache. With a
+    cache a node shared by the two requests may be evaluated once instead of twice - never more, never zero times."""
     res = []
     ra = gen_dag.ref_eval(spec, out_a, kw_a)
     rb = gen_dag.ref_eval(spec, out_b, kw_b)
+    base = {"mode": "pair" if pmode == "separate" else "pair-" + pmode}
     for first in (0, 1):
-        pl = gen_dag.build(spec, lazy=True)
+        pl = gen_dag.build(spec, lazy=True, **({"cache": True} if pmode == "cache=True" else {}))
         terms.LOG.clear()
         try:
-            la, lb = _quiet(pl, out_a, **kw_a), _quiet(pl, out_b, **kw_b)
+            if pmode == "one-dag":
+                with construct_dag():
+                    la, lb = _quiet(pl, out_a, **kw_a), _quiet(pl, out_b, **kw_b)
+            else:
+                la, lb = _quiet(pl, out_a, **kw_a), _quiet(pl, out_b, **kw_b)
             if terms.LOG:
-                res.append(({"kind": "ran-before-evaluate", "mode": "pair"}, f"pair ({out_a}, {out_b}) executed {terms.LOG} before evaluate()"))
+                res.append(({"kind": "ran-before-evaluate", **base}, f"pair ({out_a}, {out_b}) [{pmode}] executed {terms.LOG} before evaluate()"))
+            if not isinstance(la, _LazyFunction) or not isinstance(lb, _LazyFunction):
+                res.append(({"kind": "not-deferred", **base}, f"pair ({out_a}, {out_b}) [{pmode}] returned {type(la).__name__}, {type(lb).__name__}"))
+                continue
             if first == 0:
                 va, vb = _quiet(la.evaluate), _quiet(lb.evaluate)
             else:
                 vb, va = _quiet(lb.evaluate), _quiet(la.evaluate)
         except Exception as e:  # noqa: BLE001
-            res.append((findings.exc_sig(e, mode="pair"), f"pair ({out_a}, {out_b}) raised {type(e).__name__}: {str(e)[:120]}"))
+            res.append((findings.exc_sig(e, **base), f"pair ({out_a}, {out_b}) [{pmode}] raised {type(e).__name__}: {str(e)[:120]}"))
             continue
         if va != ra.value or vb != rb.value:
-            res.append(({"kind": "value-mismatch", "mode": "pair"}, f"pair order {first}: ({out_a}, {kw_a}) = {va!r} / ({out_b}, {kw_b}) = {vb!r}; reference {ra.value!r} / {rb.value!r}"))
+            res.append(({"kind": "value-mismatch", **base}, f"pair [{pmode}] order {first}: ({out_a}, {kw_a}) = {va!r} / ({out_b}, {kw_b}) = {vb!r}; reference {ra.value!r} / {rb.value!r}"))
         names = sorted(n for n, _ in terms.LOG)
-        if names != sorted(_names(spec, ra.ran) + _names(spec, rb.ran)):
-            res.append(({"kind": "call-count", "mode": "pair"}, f"pair ({out_a}, {out_b}) order {first} executed {names}"))
+        need_a, need_b = _names(spec, ra.ran), _names(spec, rb.ran)
+        if pmode == "separate":
+            ok = names == sorted(need_a + need_b)
+        else:
+            ok = all(1 <= names.count(n) <= need_a.count(n) + need_b.count(n) for n in set(need_a + need_b)) and set(names) <= set(need_a + need_b)
+        if not ok:
+            res.append(({"kind": "call-count", **base}, f"pair ({out_a}, {out_b}) [{pmode}] order {first} executed {names}; needed {need_a} + {need_b}"))
     return res
 
 
@@ -168,10 +188,11 @@ def run_spec(spec, acc):
             if oa >= ob or (oa, ob) in seen:
                 continue
             seen.add((oa, ob))
-            acc.case((gen_dag._key(spec), oa, ob, "pair"))
-            acc.stratum("pairs")
-            for sig, text in check_pair(spec, oa, ka, ob, kb):
-                acc.violation(sig, {"spec": spec, "pair": [oa, ka, ob, kb]}, text)
+            for pmode in PAIR_MODES:
+                acc.case((gen_dag._key(spec), oa, ob, "pair", pmode))
+                acc.stratum("pairs-" + pmode)
+                for sig, text in check_pair(spec, oa, ka, ob, kb, pmode):
+                    acc.violation(sig, {"spec": spec, "pair": [oa, ka, ob, kb], "pmode": pmode}, text)
     acc.sample({"spec": spec, "out": gen_dag.all_outputs(spec)[-1], "mode": "dag"})
 
 
@@ -203,7 +224,7 @@ def replay(art):
     spec = art["spec"]
     if "pair" in art:
         oa, ka, ob, kb = art["pair"]
-        return [s for s, _ in check_pair(spec, oa, ka, ob, kb)]
+        return [s for s, _ in check_pair(spec, oa, ka, ob, kb, art.get("pmode", "separate"))]
     out = art["out"]
     out = tuple(out) if isinstance(out, list) else out
     return [s for s, _ in check_lazy(spec, out, art["kw"], art["mode"])]
